@@ -23,6 +23,12 @@ import (
 // lock order).
 //
 
+// WTMAX is the largest WRITE the server accepts and announces. A write must
+// fit one journal transaction together with the blocks it dirties besides the
+// data: one more data block when unaligned, the inode block, up to three
+// indirect blocks and the bitmap blocks of the allocations.
+const WTMAX uint64 = (jrnl.LogBlocks - 16) * 4096
+
 func errRet(op *fstxn.FsTxn, status *nfstypes.Nfsstat3, err nfstypes.Nfsstat3) {
 	*status = err
 	util.DPrintf(2, "errRet %v", err)
@@ -299,7 +305,7 @@ func (nfs *Nfs) NFSPROC3_WRITE(args nfstypes.WRITE3args) nfstypes.WRITE3res {
 		errRet(op, &reply.Status, nfstypes.NFS3ERR_INVAL)
 		return reply
 	}
-	if uint64(args.Count) >= jrnl.LogBytes {
+	if uint64(args.Count) > WTMAX {
 		errRet(op, &reply.Status, nfstypes.NFS3ERR_INVAL)
 		return reply
 	}
@@ -857,7 +863,7 @@ func (nfs *Nfs) NFSPROC3_FSINFO(args nfstypes.FSINFO3args) nfstypes.FSINFO3res {
 	reply.Resok.Rtmax = 16 * 4096
 	reply.Resok.Rtmult = 4096
 	reply.Resok.Rtpref = reply.Resok.Rtmax
-	reply.Resok.Wtmax = nfstypes.Uint32(jrnl.LogBytes)
+	reply.Resok.Wtmax = nfstypes.Uint32(WTMAX)
 	reply.Resok.Wtpref = 16 * 4096
 	reply.Resok.Wtmult = 4096
 	reply.Resok.Dtpref = 16 * 4096
